@@ -104,6 +104,8 @@ for sid, (prop, change, needs) in T.items():
         'C05-a': 'quick tier: UNDECIDED (exit 2) - the is_ipv6 job runs into the quick time budget / 30 GB on this change; the log kept here is the thorough-tier run (tools/run_seed.sh C05-a C05 --tier thorough --only is_ipv6), which refutes strspn.assertion.1 after 38 minutes',
         'C09-b': 'missed (check passed, exit 0) by the machinery as it was when the seed was written; the contract gap it exposed was closed (DESIGN.md 11.4) and the log kept here is the run after that',
         'C17-b': 'missed (check passed, exit 0) by the machinery as it was when the seed was written; the contract gap it exposed was closed (DESIGN.md 11.4) and the log kept here is the run after that',
+        'C12-c': 'missed (check passed) by the machinery as it was when the seed was written: the conditions of the two dot codes overlapped for a leading double dot; the contracts now tell them apart by position and the log kept here is the run after that',
+        'C15-c': 'missed by C15\'s quick tier as it was when the seed was written (no address-literal job in it; the C05/C16 checks did refute it); email_822_literal was added to C15\'s quick tier',
         'C01-c': 'verifier undecided (new loop without contract); reported as VIOLATION through the replay-oracle fallback once the oracle had a 6531 e-mail kind (concrete input u@d.xn--0, tld_check off)',
         'C02-c': 'verifier undecided (new loop without contract); reported as VIOLATION through the replay-oracle fallback (concrete input, see replays/)',
         'C07-c': 'verifier undecided (new loop without contract); reported as VIOLATION through the replay-oracle fallback (concrete input, see replays/)',
